@@ -317,7 +317,7 @@ pub fn run(args: &Args) -> i32 {
     let mut idx = 0u64;
     // ---- (a) + (c): reader schedules over valid files and over damaged ones (failing regions)
     let seeds = corpus(args.seed, false);
-    let reps = args.scale(12, 120);
+    let reps = args.scale(40, 400);
     for (si, s) in seeds.iter().enumerate() {
         for r in 0..reps {
             idx += 1;
@@ -360,7 +360,7 @@ pub fn run(args: &Args) -> i32 {
             }
         }
     }
-    let ng = args.scale(6_000, 120_000);
+    let ng = args.scale(40_000, 600_000);
     for g in 0..ng {
         idx += 1;
         if !args.mine(idx) {
@@ -380,7 +380,7 @@ pub fn run(args: &Args) -> i32 {
         }
     }
     // ---- (b) mux determinism: twice in this process, and once more in a separate process
-    let nh = args.scale(48_000, 800_000);
+    let nh = args.scale(400_000, 6_000_000);
     let per = nh / args.nshards;
     let lo = per * args.shard;
     let hi = lo + per;
